@@ -383,3 +383,63 @@ func Verif_C02_timeout_bypass() {
 		"timeout bypass: the client receives precisely the handler's response")
 	verifAssert(verifChild == nil || !verifSymbolic(), "timeout bypass: no timeout context is created")
 }
+
+// H02f: two requests, one after the other, through the timeout middleware.
+// Request A writes (symbolic bytes, optional status/header) and then overruns
+// its deadline; request B finishes in time. B's client must receive precisely
+// B's response: nothing A wrote before or after its deadline may reach ANY
+// client, so no state of a timed-out request can carry over to a later one.
+func Verif_C02_timeout_sequence() {
+	d := time.Duration(verifInt64("routeTimeout"))
+	verifAssume(d >= time.Hour)
+	mw := TimeoutHandler(d)
+
+	// ---- request A: write, (status/header optional), deadline passes, write again ----
+	a := &verifScript{exited: make(chan struct{})}
+	if verifBool("aHeader") {
+		a.ops = append(a.ops, verifOp{kind: verifOpHeader, hv: verifStringN("aHv", 1)})
+	}
+	if verifBool("aStatus") {
+		code := verifInt("aCode")
+		verifAssume(code >= 200)
+		verifAssume(code <= 599)
+		a.ops = append(a.ops, verifOp{kind: verifOpStatus, code: code})
+	}
+	a.ops = append(a.ops, verifOp{kind: verifOpWrite, data: []byte(verifStringN("aData", 2))})
+	a.fireAt = len(a.ops) // the deadline passes after A's pre-deadline output
+	a.reactAt = a.fireAt
+	a.fireErr = context.DeadlineExceeded
+	if verifBool("aClientCancel") {
+		a.fireErr = context.Canceled
+	}
+	a.ops = append(a.ops, verifOp{kind: verifOpWrite, data: []byte(verifStringN("aLate", 1))})
+	verifParent = verifNewCtx(nil)
+	verifChild = nil
+	connA := &verifConn{hdr: http.Header{}}
+	reqA := (&http.Request{Method: "GET", Header: http.Header{}}).WithContext(verifParent)
+	mw(a).ServeHTTP(connA, reqA)
+	atomic.StoreInt32(&a.served, 1)
+	<-a.exited
+	verifYield()
+	wantA := http.StatusServiceUnavailable
+	if a.fireErr == context.Canceled {
+		wantA = statusClientClosedRequest
+	}
+	verifAssert(len(connA.codes) == 1 && connA.codes[0] == wantA, "sequence: the overrunning request gets exactly the timeout response")
+
+	// ---- request B: completes in time ----
+	b := &verifScript{fireAt: -1, exited: make(chan struct{})}
+	bData := verifStringN("bData", 2)
+	b.ops = []verifOp{{kind: verifOpWrite, data: []byte(bData)}}
+	verifParent = verifNewCtx(nil)
+	verifChild = nil
+	connB := &verifConn{hdr: http.Header{}}
+	reqB := (&http.Request{Method: "GET", Header: http.Header{}}).WithContext(verifParent)
+	mw(b).ServeHTTP(connB, reqB)
+	<-b.exited
+	verifYield()
+	verifAssert(len(connB.codes) == 1 && connB.codes[0] == http.StatusOK, "sequence: the later request gets its own status")
+	verifAssert(string(connB.body) == bData, "sequence: the later request's client receives precisely its handler's body (nothing of the timed-out request)")
+	verifAssert(!connB.sentHas, "sequence: no header of the timed-out request reaches the later client")
+	verifReach("sequence")
+}
